@@ -22,7 +22,12 @@
 //	    directory contains it;
 //	(e) codec: ParseMountEntry(e.String()) == e and text/file profiles load
 //	    back identically, for hostile entries and for every profile of the
-//	    histories.
+//	    histories;
+//	(f) the simulator's mount table after the update (Unmount with
+//	    x-snapd.detach takes every entry mounted later on or beneath the
+//	    detached one along) holds exactly the entries the update recorded: an
+//	    unchanged entry that is kept while the entry it stands on is unmounted
+//	    is gone from the table but still in the saved profile.
 package main
 
 import (
@@ -591,15 +596,16 @@ func (mo *c28Mon) checkMountTable(idx, ui int, saved []osutil.MountEntry, sim *c
 			last := g[len(g)-1]
 			po, co := last.parentOrigin, origins[k]
 			switch {
+			case keptDirs[last.parentDir]:
+				// two entries on one directory (an entry and the tmpfs of a mimic
+				// over its mount point, or the bind a mimic made for an existing
+				// child that is itself a mount point): the one that stays resets
+				// the planner's skip prefix right after the one that goes
+				sig = "C28:mount-table:kept-entry-detached-with-unmounted-parent:parent-shares-its-directory-with-a-kept-entry"
 			case (po == "overname") != (co == "overname"):
 				// the planner sorts overname entries apart from all others before
 				// its changed-parent prefix scan
 				sig = "C28:mount-table:kept-entry-detached-with-unmounted-parent:across-overname-boundary"
-			case keptDirs[last.parentDir]:
-				// two entries on one directory (an entry and the tmpfs of a mimic
-				// over its mount point): the one that stays resets the planner's
-				// skip prefix right after the one that goes
-				sig = "C28:mount-table:kept-entry-detached-with-unmounted-parent:parent-shares-its-directory-with-a-kept-entry"
 			default:
 				sig = "C28:mount-table:kept-entry-detached-with-unmounted-parent:" + po + "-parent-" + co + "-child"
 			}
@@ -952,10 +958,11 @@ func (mo *c28Mon) runCodec(idx int, scratch string) {
 func TestVerifC28(t *testing.T) {
 	c := kit.New("C28", "exploration")
 	defer c.Done(t)
-	c.Rule("histories: tree, read-only regions, failure rate, 3-5 desired profiles (first: 1-9 entries of kinds rbind/bind/tmpfs/symlink/file/ensure-dir and origins layout/overname/content on existing dirs, missing paths, paths beneath or above other entries; next: remove 20% / modify 15% / add 0-3 / reorder, 10% identical, 5% empty) are a function of (seed, shard, case index). A history is non-trivial when an update after the first performed at least one Keep, one Unmount and one Mount; its signature hashes the sequence of (action, origin, kind, depth, failed, #synthetic) of every change of every update. Codec cases (1-4 hostile entries) are non-trivial when a field holds whitespace, backslash, '#', control or non-ASCII bytes; signature = byte-class pattern of all fields.")
+	c.Rule("histories: tree, read-only regions, failure rate, 3-5 desired profiles (first: 1-9 entries of kinds rbind/bind/tmpfs/symlink/file/ensure-dir and origins layout/overname/content on existing dirs, missing paths, paths beneath or above other entries; next: remove 20% / modify 15% / add 0-3 / reorder, 10% identical, 5% empty) are a function of (seed, shard, case index). Directed classes on top: 2 first profiles in 5 and 1 derived profile in 8 get a nesting family (directory-kind parent of one origin with 1-3 entries beneath it whose origin differs 3 times in 4: layout under content, content under layout, either under or above overname, now and then a grandchild), a shared-mimic family (2-3 entries, mostly layouts, on missing names inside one existing read-only directory, so that the first one mounted owns the mimic the others live in) or both, plus 1-3 unrelated entries of any origin sorting early (etc, home, opt) or late (var/...); 1 derived profile in 5 removes (60%) or modifies one entry that has another entry beneath it or beside it inside a mimic while everything beneath and beside it stays textually unchanged and the unrelated entries mostly stay. A history is non-trivial when an update after the first performed at least one Keep, one Unmount and one Mount; its signature hashes the sequence of (action, origin, kind, depth, failed, #synthetic) of every change of every update. Codec cases (1-4 hostile entries) are non-trivial when a field holds whitespace, backslash, '#', control or non-ASCII bytes; signature = byte-class pattern of all fields.")
 	c.Assume("the recorded order of the current profile is what 'mounted later' means for clause (c-record); clause (c-true) uses the order in which the simulator saw Mount changes performed")
 	c.Assume("changePerform outcomes are simulated: success, injected error (non-layout entries only), or the synthetic changes of the real createWritableMimic over the real temporary tree; mount/umount system calls are never issued")
 	c.Assume("'beneath' is path containment of cleaned mount points (dir + '/' prefix); entries on the same directory are not beneath one another")
+	c.Assume("simulated mount table: a Mount adds the entry, an Unmount removes the entry it names and, when it carries x-snapd.detach, every entry mounted later on the same directory or beneath it (MNT_DETACH takes the mounts stacked on the detached one; entries mounted there earlier lie underneath and stay); a Keep changes nothing")
 	c.Assume("desired profiles have pairwise distinct, clean mount points; file and symlink entries have nothing beneath them")
 
 	mo := &c28Mon{c: c}
@@ -1006,6 +1013,13 @@ func TestVerifC28(t *testing.T) {
 	c.Floor("unchanged_entries_that_must_be_kept", int64(nHist/2))
 	c.Floor("unmount_pairs_child_before_parent", int64(nHist/20))
 	c.Floor("mount_pairs_parent_before_child", int64(nHist/10))
+	c.Floor("mount_tables_compared_with_saved_profile", int64(nHist*2))
+	c.Floor("entries_detached_together_with_the_entry_above_them", int64(nHist/10))
+	c.Floor("unchanged_child_beneath_changed_parent_of_other_origin_mounted_after_it", int64(nHist/10))
+	c.Floor("nesting_content_parent_changes_layout_child_stays", int64(nHist/30))
+	c.Floor("nesting_synthetic_parent_changes_layout_child_stays", int64(nHist/30))
+	c.Floor("nesting_layout_parent_changes_content_child_stays", int64(nHist/30))
+	c.Floor("updates_with_mixed_nesting_and_unrelated_entry_sorting_after", int64(nHist/10))
 	c.Floor("codec_entries", int64(nCodec))
 	c.Floor("histories_nontrivial", int64(nHist/4))
 	c.MinDistinct(nHist / 4)
